@@ -5,6 +5,7 @@ From V.c15 Require Import C15Model C15Spec.
 From V.c15 Require Import C15AvcConfModel C15AvcConfSpec.
 From V.c15 Require Import C15HevcModel C15HevcSpec.
 From V.c15 Require Import C15HevcConfModel C15HevcConfSpec.
+From V.c15 Require Import C15InitModel C15InitSpec.
 Require Import ExtrOcamlBasic.
 Separate Extraction
   parse_sps_er parse_sps_br flat_sps
@@ -18,4 +19,5 @@ Separate Extraction
   hparse_pps_er hparse_pps_br flat_hpps hnalu_pps expected_hpps hpps_valid
   hparse_slice_er hparse_slice_br flat_hslice hnalu_slice expected_hslice hslice_valid
   hs_address_bits hs_poc_bits hs_num_pic_total_curr hs_l0 hs_l1 hs_lt_idx_bits hs_list_entry_bits
-  hconf_observe hconf_decode_observe expected_hconf_observe spec_hvcc nalus_fit hconf_depths_fit.
+  hconf_observe hconf_decode_observe expected_hconf_observe spec_hvcc nalus_fit hconf_depths_fit
+  ainit_observe hinit_observe expected_ainit expected_hinit ainit_fits.
